@@ -357,7 +357,7 @@ def main():
         stats[cs['model']]['model_runs_compared'] += 1
         d = agree(cs, ri, rm)
         if d and cond_accept(drv, cs, (lambda pc: kline(pc, upto=t)) if kind == 'truncated' else
-                                (lambda pc: kline(pc, inputs=[a[:t] + b[t:] for a, b in zip(pc['inputs'], cs['alt'])])),
+                                (lambda pc: kline(pc, inputs=[a[:t] + b[t:] for a, b in zip(pc['inputs'], pc.get('alt', cs['alt']))])),
                                 lambda l: [parse_kresult(l)], [ri], [rm]) is not None:
             c.corr_broken.append({'model': cs['model'], 'diff': '%s at t=%d: %s' % (kind, t, d), 'line': line[:3000]})
         # the extracted kernel itself is causal on this case (what the theorem says)
